@@ -7,11 +7,14 @@ class IDevice(Device):
   _a = 0
   _b = 2
   _c = 1
-  _cost_fn = None
 
   def __init__(self, id, length, bounds, cbounds=None, **kwargs):
     super().__init__(id, length, bounds, cbounds=cbounds, **kwargs)
-    self._cost_fn = ABCCost(self.a, self.b, self.c, self.lbounds, self.hbounds)
+
+  @property
+  def _cost_fn(self):
+    ''' Built from the current settings, so parameters and bounds assigned after construction take effect. '''
+    return ABCCost(self.a, self.b, self.c, self.lbounds, self.hbounds)
 
   def costv(self, s, p):
     return self._cost_fn(s)/len(self) + s*p
